@@ -22,7 +22,7 @@ EXPLANATION += (  # round-3 supplement
     ' F8 no new generated block is started while a frame of the same method already holds evaluated temporaries (emptying the frame with mem::take clears that). F9 the divergence accumulator of `match` is updated on every iteration path of the arm loop. F10 divergence is inherited only from sub-expressions that are always evaluated (not loop bodies, not the right operand of && / ||).'
 )
 EXPLANATION += (
-    ' F11 at every descent into a user sub-expression (which may return early and then drops exactly the registered variables) no owned value is in limbo - stored in an unregistered temporary or already taken out of its frame for a call that is not emitted yet - and no registered aggregate is partly initialised (may-dataflow of limbo tokens per method, cleared at new_block; per-element closures analysed as loops; helpers summarised). F12 a lazily lowered operand (mir::Value) is stored before the next sub-expression is lowered (the call arguments it names are owned by nobody until then). F13 the loops with which the generated clone / drop / eq bodies walk the fields and variants of a type are only left when the iterator is exhausted.'
+    ' F11 at every descent into a user sub-expression (which may return early and then drops exactly the registered variables) no owned value is in limbo - stored in an unregistered temporary or already taken out of its frame for a call that is not emitted yet - and no registered aggregate is partly initialised (may-dataflow of limbo tokens per method, cleared at new_block; per-element closures analysed as loops; helpers summarised). F12 a lazily lowered operand (mir::Value) is stored before the next sub-expression is lowered (the call arguments it names are owned by nobody until then). F13 the loops with which the generated clone / drop / eq bodies walk the fields and variants of a type are only left when the iterator is exhausted. F14 (= C05.A7) values of registered types are not elided from the IR by their size alone (known finding: zero-sized registered types are, and are then leaked or dropped twice).'
 )
 ASSUMPTIONS = [
     "lir lowering turns every mir Drop into exactly one call of the type's drop function",
@@ -1219,6 +1219,21 @@ def rule_f13(F):
     return r
 
 
+def rule_f14(F):
+    """Clone and drop instructions exist only for values that exist in the IR.  A registered type has host-defined Clone / Drop
+    whatever its size, so it must not be elided from the IR by size alone: lower_type's `None` (no IR value: no variable, no clone,
+    no drop) is decided only after the kind of the type is known.  Shared with C05.A7 (the same elision shifts arguments)."""
+    from . import c05
+    r = c05.rule_a7(F)
+    r.rule = "C03.F14"
+    r.desc = "values of registered types (host-defined Clone / Drop) are never elided from the IR by size alone, so that their clones and drops are emitted in pairs"
+    for v in r.violations:
+        v.rule = "C03.F14"
+        v.msg = ("lower_type answers `None` (no IR value: no variable, no clone, no drop) for every zero-sized type before looking at its kind, including registered types, whose Clone and "
+                 "Drop are host code with effects: such a value is never dropped when the script keeps it, and dropped once per use without being cloned when it is handed to host functions")
+    return r
+
+
 def rules(ctx):
     F = ctx["F"]
-    return [rule_f1(F), rule_f2(F), rule_f3(F), rule_f4(F), rule_f5(F), rule_f6(F), rule_f7(F), rule_f8(F), rule_f9(F), rule_f10(F), rule_f11(F), rule_f12(F), rule_f13(F)]
+    return [rule_f1(F), rule_f2(F), rule_f3(F), rule_f4(F), rule_f5(F), rule_f6(F), rule_f7(F), rule_f8(F), rule_f9(F), rule_f10(F), rule_f11(F), rule_f12(F), rule_f13(F), rule_f14(F)]
